@@ -36,10 +36,62 @@ def srp_boundary(lang: str) -> str:
     return cls("OnLimit", 12) + "\n" + cls("AboveLimit", 14)
 
 
+ELIF_PY = '''def route(kind, items):
+    for item in items:
+        if kind == "a":
+            item.run()
+        elif kind == "b":
+            for sub in item:
+                sub.run()
+        elif kind == "c":
+            for sub in item:
+                if sub:
+                    sub.stop()
+        else:
+            item.stop()
+    return items
+
+
+def drain(kind, queue):
+    while queue:
+        try:
+            queue.pop()
+        except IndexError:
+            if kind:
+                break
+        finally:
+            with open(kind) as fh:
+                fh.read()
+    return queue
+'''
+ELIF_TS = '''function route(kind: string, items: number[][]): number[][] {
+  for (const item of items) {
+    if (kind === "a") {
+      item.pop();
+    } else if (kind === "b") {
+      for (const sub of item) {
+        item.push(sub);
+      }
+    } else if (kind === "c") {
+      for (const sub of item) {
+        if (sub) {
+          item.push(sub);
+        }
+      }
+    } else {
+      item.pop();
+    }
+  }
+  return items;
+}
+'''
 SRP_CFG = "srp:\n  max_loc: 12\n  max_methods: 50\n  check_keywords: false\n"
 BASES = [(b, C04.CONFIG) for b in C04.BASES] + [
     (("srp", "srp", "py", {"main.py": srp_boundary("py")}), C04.CONFIG + SRP_CFG),
     (("srp", "srp", "ts", {"main.ts": srp_boundary("ts")}), C04.CONFIG + SRP_CFG),
+    # if / elif / else chains and try / except / finally with branches exactly on and one above the nesting limit
+    (("nesting", "nesting", "py", {"main.py": ELIF_PY}), C04.CONFIG),
+    (("nesting", "nesting", "ts", {"main.ts": ELIF_TS}), C04.CONFIG),
 ]
 
 
@@ -52,7 +104,7 @@ def apply_edits(content: str, lang: str, edits: list[dict]) -> tuple[str, list[d
     for e in edits:
         kind, p = e["kind"], e["pos"]
         n = len(lines)
-        at = {0: 1, 1: n // 3 + 1, 2: (2 * n) // 3 + 1, 3: n + 1}[p]
+        at = e["at_line"] if p == 4 else {0: 1, 1: n // 3 + 1, 2: (2 * n) // 3 + 1, 3: n + 1}[p]
         if kind in ("blank", "comment"):
             k += 1
             nxt = lines[at - 1] if at <= n else ""
@@ -78,6 +130,38 @@ def apply_edits(content: str, lang: str, edits: list[dict]) -> tuple[str, list[d
             lines = rename_locals("\n".join(lines), lang).split("\n")
             out.append({"kind": kind, "at": 0})
     return bom + eol.join(lines) + eol, out
+
+
+def safe_boundaries(content: str, lang: str) -> list[int]:
+    """Line numbers `at` (1..n+1) such that a blank or comment line inserted to become line `at` cannot change the
+    meaning of the file: not inside a multi-line string / template / block comment, not after a backslash."""
+    lines = content.rstrip("\n").split("\n")
+    n = len(lines)
+    bad: set[int] = set()
+    if lang == "py":
+        import io
+        import tokenize
+        try:
+            for tok in tokenize.generate_tokens(io.StringIO(content).readline):
+                if tok.type in (tokenize.STRING, getattr(tokenize, "FSTRING_MIDDLE", -1)) and tok.end[0] > tok.start[0]:
+                    bad.update(range(tok.start[0] + 1, tok.end[0] + 1))
+        except (tokenize.TokenError, IndentationError, SyntaxError):
+            return []
+        bad.update(i + 2 for i, l in enumerate(lines) if l.rstrip().endswith("\\"))
+    else:
+        inside = False      # inside /* */ or a template literal or a raw string
+        for i, l in enumerate(lines, 1):
+            if inside:
+                bad.add(i)
+            for m in re.finditer(r"/\*|\*/|`|r#*\"|\"#+", l):
+                t = m.group(0)
+                if t == "/*":
+                    inside = True
+                elif t == "*/":
+                    inside = False
+                elif t == "`" or t.startswith("r") or t.endswith("#"):
+                    inside = not inside
+    return [at for at in range(1, n + 2) if at not in bad]
 
 
 NAME_RULES = ("stringly-typed", "dry")      # rules documented to look at identifiers / at the text of statements
@@ -143,7 +227,18 @@ def job(j: dict) -> dict:
     os.chdir(root0)
     base = lint(root0, names)
     runs = []
-    for ci, case in enumerate(j["cases"]):
+    expanded = []
+    for case in j["cases"]:
+        if case["edits"][0]["pos"] == 4:
+            ats = safe_boundaries(padded[main], lang)
+            if linter in ("file-header", "lazy-ignores"):
+                ats = [a for a in ats if a > 12]
+            if j.get("sweep_step", 1) > 1:
+                ats = ats[j["sweep_phase"] % j["sweep_step"]::j["sweep_step"]]
+            expanded += [{"edits": [dict(case["edits"][0], at_line=a)]} for a in ats]
+        else:
+            expanded.append(case)
+    for ci, case in enumerate(expanded):
         if linter in ("file-header", "lazy-ignores") and any(e["pos"] == 0 and e["kind"] in ("blank", "comment")
                                                              for e in case["edits"]):
             continue      # header-sensitive linters: only edits below the header
@@ -182,7 +277,7 @@ def job(j: dict) -> dict:
         from src.api import Linter as _Linter
         held = _Linter(project_root=str(rootv))
         base_v = lint(rootv, names, held)
-        usable = [c for c in j["cases"] if not (linter in ("file-header", "lazy-ignores") and any(
+        usable = [c for c in j["cases"] if c["edits"][0]["pos"] != 4 and not (linter in ("file-header", "lazy-ignores") and any(
             e["pos"] == 0 and e["kind"] in ("blank", "comment") for e in c["edits"]))]
         for ci, case in enumerate(rnd.sample(usable, min(j.get("inplace_len", 8), len(usable)))):
             new, concrete = apply_edits(content0, lang, case["edits"])
@@ -198,8 +293,8 @@ def job(j: dict) -> dict:
 def run(chk) -> None:
     quick = chk.tier == "quick"
     drive.preload()
-    chk.rule = ("edit sequences of length <= 2 (thorough: <= 3) over {blank, comment} x 4 positions, trailing whitespace x 2 "
-                "positions, reindent, CRLF, BOM, appended unrelated code, renaming of local identifiers (enumerated by TLC from Edits.tla) x 23 "
+    chk.rule = ("edit sequences of length <= 2 (thorough: <= 3) over {blank, comment} x 4 positions (and, as single edits, x every line boundary of the file), trailing whitespace x 2 "
+                "positions, reindent, CRLF, BOM, appended unrelated code, renaming of local identifiers (enumerated by TLC from Edits.tla) x 25 "
                 "linter x language bases; all rules linted before/after; non-trivial = base has findings; "
                 "distinct by (base, edit sequence)")
     chk.assumptions = ["comment lines are directive-free and indented like the following line; the probe files "
@@ -215,7 +310,8 @@ def run(chk) -> None:
     chk.exhaustive = not quick
     if quick:
         cases = [c for i, c in enumerate(cases) if len(c["edits"]) == 1 or i % 3 == 0]
-    jobs = [{"base": b, "cases": cases, "root": str(scratch_root() / f"c13-{i}")} for i, b in enumerate(BASES)]
+    jobs = [{"base": b, "cases": cases, "root": str(scratch_root() / f"c13-{i}"), "sweep_step": 1,
+             "sweep_phase": chk.seed + i} for i, b in enumerate(BASES)]
     log(f"C13: {len(jobs)} bases x {len(cases)} edit sequences")
     res = pool.run_jobs(job, jobs, nproc=NCPU, timeout=1800)
     records, meta = [], []
